@@ -94,6 +94,46 @@ def steady_observe(c, n=3, same_grid=True, obsmap=True):
         c.eq('observation_map_applied_last', out, om(raw) if om else raw)
 
 
+def grid_flag_invariant(c):
+    """representation invariant of the observation branch selector: after ANY assignment to grid_sol or grid_obs, from ANY earlier
+    state satisfying it, grids_equal == (the two grids coincide, a missing grid counting as coinciding).  The setters read nothing
+    but the two grids, so the invariant extends to every assignment history; observe() then selects by the current grids."""
+    g3 = np.linspace(0, 1, 3); palette = dict(none=None, g3=g3, g3copy=g3.copy(), g3other=np.array([0.0, 0.4, 1.0]), g5=np.linspace(0, 1, 5))
+    def coincide(a, b): return a is None or b is None or (len(a) == len(b) and bool(np.all(np.asarray(a) == np.asarray(b))))
+    A, f, _ = _form(c, 3)
+    for ns, gs in palette.items():
+        for no, go in palette.items():
+            for nv, v in palette.items():
+                for which in ('grid_sol', 'grid_obs'):
+                    pde = SteadyStateLinearPDE(lambda th: (A(th), f(th)), linalg_solve=Solver(c))
+                    pde._grid_sol, pde._grid_obs, pde._grids_equal = gs, go, coincide(gs, go)        # an arbitrary earlier state
+                    setattr(pde, which, v)
+                    c.holds(f'flag_is_grid_coincidence_after_{which}={nv}_from_sol={ns}_obs={no}',
+                            bool(pde.grids_equal) == coincide(pde.grid_sol, pde.grid_obs), note=f"{pde.grids_equal}")
+                    if which == 'grid_sol': c.holds(f'grid_sol_stored_{nv}_from_sol={ns}_obs={no}', pde.grid_sol is v)
+                    elif v is not None: c.holds(f'grid_obs_stored_{nv}_from_sol={ns}_obs={no}', pde.grid_obs is v)
+
+
+def observe_after_regridding(c, kind):
+    """history: constructed with coinciding grids, then given a finer solution grid; observation must go to the observation grid"""
+    n = 9; K = 5; A, f, u0 = _form(c, n, kind == 'time')
+    gobs = np.linspace(0, 1, 5); gnew = np.linspace(0, 1, n)
+    if kind == 'steady':
+        pde = SteadyStateLinearPDE(lambda th: (A(th), f(th)), grid_sol=gobs.copy(), grid_obs=gobs, linalg_solve=Solver(c))
+        pde.grid_sol = gnew; u = c.vec('u', n)
+    else:
+        times = np.linspace(0, 1, K)
+        pde = TimeDependentLinearPDE(lambda p, t: (A(p, t), f(p, t), u0(p, t)), times, grid_sol=gobs.copy(), grid_obs=gobs, linalg_solve=Solver(c))
+        pde.grid_sol = gnew; u = c.vec('U', n * K).reshape(n, K)
+    Interp.log.clear()
+    out = pde.observe(u)
+    c.holds('observation_lives_on_the_observation_grid', np.shape(out)[0] == len(gobs), note=str(np.shape(out)))
+    if c.sym:
+        c.holds('interpolated_from_the_new_solution_grid_to_the_observation_grid', len(Interp.log) == 1 and Interp.log[0][0][0] is gnew and Interp.log[0][2][0] is gobs)
+    else:
+        c.eq('exact_at_the_coinciding_nodes', np.asarray(out).reshape(len(gobs), -1)[:, -1], (u if kind == 'steady' else u[:, -1])[::2], tol=1e-7)
+
+
 def time_dependent(c, method, n=2, K=3, extra=0):
     """K time levels with symbolic, non-uniform time stamps"""
     A, f, u0 = _form(c, n, True)
@@ -142,7 +182,10 @@ def euler_step_induction(c, method, n=2):
     idx = 1                                       # an arbitrary interior step
     t_loop = times[idx] if method == 'forward_euler' else times[idx + 1]
     Ubefore = U.copy()
-    tag, st = body(dict(self=pde, u=U, idx=idx, t=t_loop, info=None))
+    tag0, st0 = pre({'self': pde})                # whatever solve() sets up before the loop, from the real code
+    st0 = dict(st0); st0.update(u=U, idx=idx, t=t_loop)
+    sol.calls.clear(); sol.sols.clear()
+    tag, st = body(st0)
     c.holds('body_falls_through', tag == '__next')
     dt = times[idx + 1] - times[idx]; I = np.eye(n)
     if method == 'forward_euler':
@@ -223,5 +266,9 @@ def jobs(tier):
     for to in ('final', 'all', 'explicit'):
         for sg in (True, False):
             J.append(Job(f'TimeDependentLinearPDE.observe:time_obs={to}:same_grid={sg}', lambda c, to=to, sg=sg: time_observe(c, to, sg, 5, 5, to != 'all'), 'Pbox', F('TimeDependentLinearPDE.observe', 'TimeDependentLinearPDE.__init__'), extra=_extra))
+    J.append(Job('PDE.grid_setters:flag_invariant', grid_flag_invariant, 'Pbox', F('PDE._compare_grid', 'PDE.grid_sol', 'PDE.grid_obs', 'PDE.grids_equal'), extra=_extra, nnum=1))
+    for kind in ('steady', 'time'):
+        J.append(Job(f'PDE.observe:after_assigning_a_new_solution_grid:{kind}', lambda c, kind=kind: observe_after_regridding(c, kind), 'Pbox',
+                     F('PDE.grid_sol', 'SteadyStateLinearPDE.observe', 'TimeDependentLinearPDE.observe'), extra=_extra))
     J.append(Job('PDEModel:assemble_solve_observe_and_gradient_dispatch', pde_model, 'Pbox', ['cuqi.model._model:PDEModel._forward_func', 'cuqi.model._model:PDEModel._gradient_func'], extra=_extra))
     return J
